@@ -189,6 +189,18 @@ def check(prog, rep, tier):
                     rep.bad("C08.cbf-symmetry", f"{CB}.remove_alt", f"amount {nshow(amt)}",
                             f"remove subtracts {nshow(amt)}; expected min(num_els, current minimum of the key's cells): removing what was added must restore the cells", e.where())
                     oks = False
+    for p in pr:
+        for c in p.conds:
+            for n in walk(c.atom):
+                if n[0] == "call" and n[1] in (("g", "min"), ("g", "max")) and len(n[2]) == 1 and n[2][0][0] == "star":
+                    rep.bad("C08.cbf-symmetry", f"{CB}.remove_alt", f"{n[1][1]}(*cells)",
+                            f"the key's minimum is computed as {n[1][1]}(*cells): with a single hash position that call receives one int and raises TypeError, so such a key can never be removed", fr.where(c.node))
+                    oks = False
+                    break
+            if not oks:
+                break
+        if not oks:
+            break
     if oks:
         rep.ok("C08.cbf-symmetry", f"{CB}: same index list; +num_els / -min(num_els, minimum) per occurrence")
         rep.ok("C08.cbf-symmetry", f"{CB}: remove amount is min(num_els, minimum)")
@@ -320,5 +332,6 @@ MUTANTS = [
     Mutant("_load_init: bloom_length = n_bits + 1", _CB, replace_stmt("CountingBloomFilter", "_load_init", "self._bloom_length = n_bits", "self._bloom_length = n_bits + 1"), rule="C08.cbf-length"),
     Mutant("add on a present key inserts a second bin", _CC, replace_stmt("CountingCuckooFilter", "add", "if is_present is not None", "pass"), rule="C08.cc-add"),
     Mutant("remove of an absent key decrements the counter", _CC, replace_stmt("CountingCuckooFilter", "remove", "if idx is None", "if idx is None:\n    self._inserted_elements -= 1\n    return False"), rule="C08.cc-remove"),
+    Mutant("minimum taken with min(*generator)", _CB, replace_stmt("CountingBloomFilter", "remove_alt", "min_val = min(vals)", "min_val = min(*(self._bloom[k] for k in indices))"), rule="C08.cbf-symmetry"),
     Mutant("remove amount spelled min(num_els, min_val) (same meaning)", _CB, replace_stmt("CountingBloomFilter", "remove_alt", "to_remove = ", "to_remove = min(num_els, min_val)"), expect="silent"),
 ]
